@@ -57,6 +57,8 @@ PROVIDERS = [
     ((b"T1", b"T2", b""), 3),
     ((b"T1", b"T2", b"T3", b"T4"), 4),
     ((b"T1", b"T2", b"T3", b""), 4),
+    ((b"A" * 5000, b"\x00"), 2),  # very large first token, 1-byte NUL second token
+    ((b"\x00", b"B" * 256, b"\xff" * 255), 3),
 ]
 
 
